@@ -12,7 +12,7 @@ import re
 from facts import AnalysisBroken, VERIF
 from result import Result
 from paths import Renderer
-from loops import normal_for, enclosing_fors
+from loops import normal_for, enclosing_fors, loops_around
 import a7
 
 
@@ -137,15 +137,16 @@ def label_rule(prog, res):
         if not calls:
             continue
         c = calls[0]
-        fs = enclosing_fors(f, t['id'])
-        lf = normal_for(f, fs[0]) if fs else None
-        if not lf or lf['start_cv'] != '0' or lf['op'] != '<':
-            why = 'label look-up is not inside a loop over [0, labels.size)'
+        la = loops_around(f, t['id'], R)
+        lf = la[0] if la else None
+        if not lf or lf['name'] is None:
+            why = 'label look-up is not inside a counted loop over the labels'
             continue
         lab = 'this._parameters.group("POINT").parameter("LABELS").valuesAsString()'
-        if R.render(lf['bound']) != lab + '.size':
-            why = 'label loop runs to %s, not POINT:LABELS.size' % R.render(lf['bound'])
+        if lf['bound'] != lab + '.size':
+            why = 'label loop runs to %s, not POINT:LABELS.size' % lf['bound']
             continue
+        fs = [lf['node']]
         if R.render(f.call_obj(c)) != 'arg0._points' or R.render(c['args'][0]) != '%s[local:%s]' % (lab, lf['name']):
             why = 'look-up is %s.pointIdx(%s)' % (R.render(f.call_obj(c)), R.render(c['args'][0]))
             continue
@@ -185,16 +186,15 @@ def duplicate_rule(prog, res, q, ptype0, group, name_re):
         ths = [f.nodes[x] for x in f.descendants(n['then']) if f.nodes[x]['k'] == 'CXXThrowExpr']
         if not ths or any(t.get('throw_t') != 'std::invalid_argument' for t in ths):
             continue
-        m = re.match(r'^!\(\(bool\)(.*)\.compare\((.*)\)\)$', c) or re.match(r'^\((.*) == (.*)\)$', c)
+        m = re.match(r'^!\(\(bool\)(.*)\.compare\((.*)\)\)$', c) or re.match(r'^\((.*) == (.*)\)$', c) or re.match(r'^std::operator==\((.*),(.*)\)$', c)
         if not m:
             continue
         a, b = m.group(1), m.group(2)
         sides = sorted([a, b])
         lf = {}
-        for fid in enclosing_fors(f, n['id']):
-            x = normal_for(f, fid)
-            if x and x['start_cv'] == '0' and x['op'] == '<':
-                lf[x['name']] = R.render(x['bound'])
+        for x in loops_around(f, n['id'], R):
+            if x['name'] is not None:
+                lf[x['name']] = x['bound']
         mm = [re.match(name_re, s) for s in (a, b)]
         ml = [re.match(r'^%s\[local:(\w+)\]$' % re.escape(lab), s) for s in (a, b)]
         nv = next((x.group(1) for x in mm if x), None)
@@ -282,7 +282,7 @@ def run(prog, tier):
         f, rows = guard_table(prog, res, q, spec, contract['classes'])
         total += rows
     res.info['model_rows_walked'] = total
-    res.minimum('guard-table rows walked', total, 3000)
+    res.minimum('guard-table rows walked', total, 2000)
     label_rule(prog, res)
     duplicate_rule(prog, res, 'ezc3d::c3d::point', 'const std::vector<ezc3d::DataNS::Frame> &', 'POINT', r'^arg0\[0\]\._points\.point\(local:(\w+)\)\._name$')
     duplicate_rule(prog, res, 'ezc3d::c3d::analog', 'const std::vector<ezc3d::DataNS::Frame> &', 'ANALOG', r'^arg0\[0\]\._analogs\.subframe\(0\)\.channel\(local:(\w+)\)\._name$')
